@@ -21,6 +21,7 @@ from netqasm.qlink_compat import LinkLayerOKTypeK, LinkLayerOKTypeM, ReturnType
 from netqasm.sdk.shared_memory import SharedMemoryManager
 
 PID = "C12"
+PURPOSE_OFFSET = 5      # purpose id = socket id + 5: the two must not be confused inside the executor
 APP = 0
 REMOTE = 1
 OK_FIELDS = 10
@@ -119,6 +120,7 @@ def make_body(spec, falsify=False):
     def body(inp):
         SharedMemoryManager.reset_memories()
         ex = CoExecutor("ctrl")
+        ex.network_stack.purpose_offset = PURPOSE_OFFSET
         ex.init_new_application(app_id=APP, max_qubits=4)
         sub = parse_text_subroutine(text)
         gen = ex.execute_subroutine(sub)
@@ -215,13 +217,13 @@ def make_body(spec, falsify=False):
                         used_phys.add(phys)
                         resp = LinkLayerOKTypeK(type=ReturnType.OK_K, create_id=pay["create_id"], logical_qubit_id=phys,
                                                 directionality_flag=0 if role == "create" else 1, sequence_number=pay["seq"],
-                                                purpose_id=sock, remote_node_id=REMOTE, goodness=pay["goodness"], goodness_time=0,
+                                                purpose_id=sock + PURPOSE_OFFSET, remote_node_id=REMOTE, goodness=pay["goodness"], goodness_time=0,
                                                 bell_state=pay["bell"])
                         pay["phys"] = phys
                     else:
                         resp = LinkLayerOKTypeM(type=ReturnType.OK_M, create_id=pay["create_id"], measurement_outcome=pay["bell"] % 2,
                                                 measurement_basis=0, directionality_flag=0 if role == "create" else 1,
-                                                sequence_number=pay["seq"], purpose_id=sock, remote_node_id=REMOTE,
+                                                sequence_number=pay["seq"], purpose_id=sock + PURPOSE_OFFSET, remote_node_id=REMOTE,
                                                 goodness=pay["goodness"], bell_state=pay["bell"])
                     pay["fields"] = [x.value if hasattr(x, "value") and not isinstance(x, int) else x for x in resp]
                     if spec.get("wire") == "qlink1":
@@ -229,12 +231,12 @@ def make_body(spec, falsify=False):
                         import qlink_interface as ql
                         if tp == "K":
                             resp = ql.ResCreateAndKeep(create_id=pay["create_id"], directionality_flag=0 if role == "create" else 1,
-                                                       sequence_number=pay["seq"], purpose_id=sock, remote_node_id=REMOTE,
+                                                       sequence_number=pay["seq"], purpose_id=sock + PURPOSE_OFFSET, remote_node_id=REMOTE,
                                                        goodness=pay["goodness"], bell_state=pay["bell"], logical_qubit_id=phys,
                                                        time_of_goodness=0)
                         else:
                             resp = ql.ResMeasureDirectly(create_id=pay["create_id"], directionality_flag=0 if role == "create" else 1,
-                                                         sequence_number=pay["seq"], purpose_id=sock, remote_node_id=REMOTE,
+                                                         sequence_number=pay["seq"], purpose_id=sock + PURPOSE_OFFSET, remote_node_id=REMOTE,
                                                          goodness=pay["goodness"], bell_state=pay["bell"],
                                                          measurement_outcome=pay["bell"] % 2, measurement_basis=ql.MeasurementBasis.Z)
                     # reference matcher
